@@ -395,6 +395,7 @@ class Model(Object):
                 new.__dict__[attr] = self.__dict__[attr]
         new.notes = deepcopy(self.notes)
         new.annotation = deepcopy(self.annotation)
+        new._compartments = self._compartments.copy()
 
         new.metabolites = DictList()
         do_not_copy_by_ref = {"_reaction", "_model"}
